@@ -1926,6 +1926,68 @@ fn main() {
                 }
             }
         }
+        // snapshot_interleave : a logger is installed that, the first time the thread inside DB::get_snapshot logs anything, lets the main
+        // thread overwrite the key and compact the whole range before the snapshot call continues (a call that works in one critical
+        // section never gives the logger that chance while it matters). The snapshot then has to read the value of its state.
+        "snapshot_interleave" => {
+            use raindb::{ReadOptions, WriteOptions};
+            use std::sync::atomic::{AtomicBool, Ordering};
+            use std::sync::mpsc::{channel, Receiver, Sender};
+            thread_local! { static IN_SNAPSHOT_CALL: std::cell::Cell<bool> = std::cell::Cell::new(false); }
+            struct Hook { fired: AtomicBool, to_main: std::sync::Mutex<Sender<()>>, from_main: std::sync::Mutex<Receiver<()>> }
+            impl log::Log for Hook {
+                fn enabled(&self, _: &log::Metadata) -> bool { true }
+                fn log(&self, _: &log::Record) {
+                    if IN_SNAPSHOT_CALL.with(|c| c.get()) && !self.fired.swap(true, Ordering::SeqCst) {
+                        let _ = self.to_main.lock().unwrap().send(());
+                        let _ = self.from_main.lock().unwrap().recv_timeout(std::time::Duration::from_secs(5));
+                    }
+                }
+                fn flush(&self) {}
+            }
+            let (to_main, at_main) = channel();
+            let (to_hook, at_hook) = channel();
+            let hook: &'static Hook = Box::leak(Box::new(Hook { fired: AtomicBool::new(false), to_main: std::sync::Mutex::new(to_main), from_main: std::sync::Mutex::new(at_hook) }));
+            let _ = log::set_logger(hook);
+            log::set_max_level(log::LevelFilter::Trace);
+            let mut o = raindb::DbOptions::with_memory_env();
+            o.db_path = "db".to_string();
+            o.create_if_missing = true;
+            let db = std::sync::Arc::new(raindb::DB::open(o).expect("open"));
+            db.put(WriteOptions::default(), b"k".to_vec(), b"v1".to_vec()).unwrap();
+            db.compact_range(None..None);
+            let db2 = std::sync::Arc::clone(&db);
+            let (tx, rx) = channel();
+            std::thread::spawn(move || {
+                IN_SNAPSHOT_CALL.with(|c| c.set(true));
+                let snap = db2.get_snapshot();
+                IN_SNAPSHOT_CALL.with(|c| c.set(false));
+                let _ = tx.send(snap);
+            });
+            let interleaved = at_main.recv_timeout(std::time::Duration::from_secs(2)).is_ok();
+            if interleaved {
+                // the snapshot call is parked inside the logger: overwrite and compact on a helper thread (it blocks if the call holds the mutex)
+                let db3 = std::sync::Arc::clone(&db);
+                let (dtx, drx) = channel();
+                std::thread::spawn(move || {
+                    db3.put(WriteOptions::default(), b"k".to_vec(), b"v2".to_vec()).unwrap();
+                    db3.compact_range(None..None);
+                    let _ = dtx.send(());
+                });
+                let done = drx.recv_timeout(std::time::Duration::from_secs(4)).is_ok();
+                println!("interference_completed={}", done);
+                let _ = to_hook.send(());
+            }
+            println!("interleaved={}", interleaved);
+            match rx.recv_timeout(std::time::Duration::from_secs(20)) {
+                Ok(snap) => {
+                    let got = db.get(ReadOptions { snapshot: Some(snap.clone()), ..ReadOptions::default() }, b"k");
+                    println!("snapshot_read={}", got.map(|v| String::from_utf8_lossy(&v).to_string()).unwrap_or_else(|e| format!("error {:?}", e)));
+                }
+                Err(_) => println!("snapshot_read=get_snapshot did not return"),
+            }
+            std::process::exit(0);
+        }
         // lru_cache <capacity> op:key:value ... : the operations (insert / get / remove) on a real LRUCache<u64, u64>, next to an ordered
         // list (most recently used first) as reference: what every insert / get observed, len() at the end, and the values every
         // handle still reads at the end
